@@ -109,7 +109,10 @@ def body_adaptive(case):
     check(not feasible or True, "adaptive:never", "")
     if not feasible:
         # a feasible set that exists only up to the LP's tolerance (razor-thin: scales close to 0) is a band case
-        if adaptive_lp(sv, B, neutral, d1 * 2.0, dr * 2.0, np.zeros(2)).status == 0:
+        # ... and so is one that exists within the accuracy of the requested solver relative to the size of the captures involved
+        # (SCS: 1e-4 of the data; CLARABEL: 1e-7): a constraint missed by 3e-4 at captures of 50 is "optimal" for SCS
+        slack = (1e-4 if case["solver"] == "SCS" else 1e-7) * float(max(np.max(np.abs(Bp)), np.max(np.abs(B)), sv.extent))
+        if adaptive_lp(sv, B, neutral, d1 * 2.0 + slack, dr * 2.0 + slack, np.zeros(2)).status == 0:
             return labs + ["marginal-returned"]
         raise Violation("adaptive:infeasible-returned", f"no feasible (X, scales) exists (LP, even with doubled deltas) but the call returned scales {scales.tolist()}")
     acc = 1e-5 if case["solver"] == "CLARABEL" else 2e-3
